@@ -235,6 +235,11 @@ func prettyPrintLongForm(ps *PrintState, s Node, i int) {
 	}
 }
 
+// FirstByte returns the first byte the compact form of n starts with (0 when it can't tell).
+func FirstByte(n Node) byte {
+	return (&PrintState{Compact: true}).firstByte(n, LOWEST)
+}
+
 // firstByte returns the first byte n.PrettyPrint(ps) is going to write when called with the given
 // expression precedence (following the same parentheses decisions), or 0 when it can't tell.
 func (ps *PrintState) firstByte(n Node, precedence Priority) byte {
